@@ -96,6 +96,8 @@ package console
 
 //vc:func (*Conn).StripEcho
 //vc:  set lastRemainder = result
+// the reply starts with the echo of the command; nothing in front of it is dropped
+//vc:  ensures[C09] @echoIsPrefixOfReply s == cmd + "\n" + result
 //vc:  ensures[C09] lastRemainder == result
 
 // C17: the session log receives device output only: logString is reached from
